@@ -114,3 +114,16 @@ claim('C14', 'exploration',
       'elements / of parents after SKIP_SIBLINGS are "may".',
       'runtime monitoring: trace-specification checking of callback logs, exhaustive single-answer handler programs',
       'DESIGN.md section 4, C14')
+
+claim('C15', 'exploration',
+      'For generated well-formed documents the expected handler-callback sequence is derived from the abstract document; '
+      'all-continue parses (storing and syntax-only) must deliver exactly it with correct payloads, store exactly the '
+      'document, report every data name in order, one keyword callback per loop_, white-space runs holding only white '
+      'space / comments at monotone positions, and both modes must give identical handler and syntax sequences.  Every '
+      'single non-continue answer at every callback (exhaustive), pairs (thorough) and random programs are then parsed in '
+      'both modes and judged by an abstract interpreter: must / may / must-not callbacks, return value, and stored / '
+      'absent / don\'t-care content.',
+      'Documents are the seeded ones generated (96 quick / 2000 thorough).  "may" / don\'t-care classes as listed in '
+      'DESIGN.md section 5, item 1; the text passed to the keyword callback is not judged.',
+      'runtime monitoring: trace-specification checking of parse callbacks derived from the abstract document',
+      'DESIGN.md section 4, C15')
